@@ -26,7 +26,9 @@ def gen(rng, tier):
     for kind in ('dfa', 'nfa', 'pda', 'tm'):
         for _ in range(150 if quick else 3000):
             x = C17.random_obj(rng, kind)
-            if any(q in ('states', 'final', 'initial', 'input_symbols', 'epsilon', 'stack_symbols', 'tape_symbols', 'blank', 'accept', 'reject') for q in x['Q']):
+            reserved = {'dfa': ['input_symbols'], 'nfa': ['input_symbols', 'epsilon'], 'pda': ['input_symbols', 'stack_symbols', 'epsilon'],
+                        'tm': ['input_symbols', 'tape_symbols', 'blank', 'accept', 'reject']}[kind] + ['states', 'final', 'initial']
+            if any(q in reserved for q in x['Q']):
                 continue
             if kind == 'nfa':
                 x['delta'] = [e for e in x['delta'] if e[2]]
